@@ -18,6 +18,9 @@ class Naming(object):
             return f'lt{l}'
         if self.scheme == 'slashed':
             return f'lvl{l}'
+        if self.scheme == 'obscols':
+            # level names as the obs columns of published references are called (class_label, cluster_alias ...)
+            return ['top_name', 'class_label', 'subclass_name', 'cluster_alias', 'type_assignment', 'x_label'][l] if l < 6 else f'l{l}_label'
         if self.scheme == 'prefix':
             return 'lv' + 'x' * l           # every level name is a prefix of the names of the finer levels
         if self.scheme == 'quoted':
@@ -33,6 +36,8 @@ class Naming(object):
             return f'T{n}' + 'ergic' * max(0, 4 - l)    # the coarser the level the longer the name ('Glutamatergic' over 'IT')
         if self.scheme == 'slashed':
             return f'L{l}/{n} IT x'         # legal labels with a slash and spaces ("L2/3 IT")
+        if self.scheme == 'obscols':
+            return f'k{l}_{n}'
         if self.scheme == 'prefix':
             return f'p{l}n{n}'
         if self.scheme == 'quoted':
